@@ -36,6 +36,11 @@ def sim_kill(pid, sig):
         h = p.sig_handlers.get(sig, _signal.SIG_DFL)
         if h == _signal.SIG_IGN:
             return
+        if p.state == 'stopped':
+            # a stopped process acts on nothing but SIGKILL / SIGCONT; the signal stays pending
+            p.stopped_pending.append(sig)
+            sim.ev('signal-pending-while-stopped', p.name, sig)
+            return
         if callable(h) and p.state != 'gilheld':
             p.pending_signals.append(sig)
             # wake the main thread if it sits in an interruptible call
